@@ -531,7 +531,7 @@ impl<'de, R: Read<'de>> Parser<R> {
                 if next == 0 || is_delimiter(next) || is_sign_subsequent(next) {
                     Token::Symbol(self.parse_symbol_suffix("-")?.into())
                 } else {
-                    Token::Number(self.parse_num_literal(10, false)?)
+                    Token::Number(self.parse_num_token(10, false)?)
                 }
             }
             b'+' => {
@@ -540,19 +540,21 @@ impl<'de, R: Read<'de>> Parser<R> {
                 if next == 0 || is_delimiter(next) || is_sign_subsequent(next) {
                     Token::Symbol(self.parse_symbol_suffix("+")?.into())
                 } else {
-                    Token::Number(self.parse_num_literal(10, true)?)
+                    Token::Number(self.parse_num_token(10, true)?)
                 }
             }
             b'0'..=b'9' => {
                 if self.options.leading_digit_symbols {
                     let symbol = self.parse_symbol()?;
                     let mut num_parser = Parser::from_slice_custom(symbol.as_bytes(), self.options);
-                    match num_parser.parse_num_literal(10, true) {
-                        Ok(token) => Token::Number(token),
-                        Err(_) => Token::Symbol(symbol.into()),
+                    // Only a token that is a numeric literal as a whole is a
+                    // number; `1+` or `1.5.6` are symbols.
+                    match (num_parser.parse_num_literal(10, true), num_parser.peek()) {
+                        (Ok(token), Ok(None)) => Token::Number(token),
+                        _ => Token::Symbol(symbol.into()),
                     }
                 } else {
-                    Token::Number(self.parse_num_literal(10, true)?)
+                    Token::Number(self.parse_num_token(10, true)?)
                 }
             }
             b'"' => {
@@ -1061,13 +1063,23 @@ impl<'de, R: Read<'de>> Parser<R> {
         match self.peek_or_null()? {
             b'-' => {
                 self.eat_char();
-                self.parse_num_literal(radix, false)
+                self.parse_num_token(radix, false)
             }
             b'+' => {
                 self.eat_char();
-                self.parse_num_literal(radix, true)
+                self.parse_num_token(radix, true)
             }
-            _ => self.parse_num_literal(radix, true),
+            _ => self.parse_num_token(radix, true),
+        }
+    }
+
+    // Parses a numeric literal without a leading sign, which must extend up to
+    // the next delimiter or the end of input.
+    fn parse_num_token(&mut self, radix: u8, pos: bool) -> Result<Number> {
+        let number = self.parse_num_literal(radix, pos)?;
+        match self.peek()? {
+            Some(c) if !is_delimiter(c) => Err(self.peek_error(ErrorCode::InvalidNumber)),
+            _ => Ok(number),
         }
     }
 
